@@ -46,6 +46,14 @@ class ByTextRe:
     def __init__(self, needle, enabled):
         self.needle, self.enabled = needle, enabled
 
+    # bumpver memoises compile_pattern: the same raw pattern configured for two files is the SAME (equal) Pattern object, although
+    # it matches in one file and not in the other. Equality by text keeps that: per-file match/no-match stays in `enabled`.
+    def __eq__(self, other):
+        return isinstance(other, ByTextRe) and other.needle == self.needle
+
+    def __hash__(self):
+        return hash(self.needle)
+
     def search(self, line):
         if not self.enabled:
             return None
